@@ -128,6 +128,32 @@ def generate(rng, tier, seed):
                     if not u.ok or u.value[1] != key or header_tuple(u.value[0]) != before:
                         c.fail(f"round trip fails for a key that is {note}")
                 yield c
+    # the header object a KeyBlock was built on is THE header of that object: fields and blocks the caller changes afterwards through
+    # their own reference are what the next wrap carries (and what unwrapping it returns)
+    for ver, (bs, ksizes, ml) in VERS.items():
+        for _ in range(3 if tier == "quick" else 12):
+            kbpk = rb(rng, ksizes[-1])
+            h = make_header(rng, ver, rand_blocks(rng, rng.randrange(0, 3)))
+            c = Case(f"{ver}:header-edited-after-construction", {})
+            kbo = tr31.KeyBlock(kbpk, h)
+            h.key_usage, h.mode_of_use, h.exportability = rs(rng, 2), rs(rng, 1), rs(rng, 1)
+            nb = rand_blocks(rng, 1)
+            if nb:
+                h.blocks[nb[0][0]] = nb[0][1]
+            if len(h.blocks) > 1 and rng.random() < 0.5:
+                del h.blocks[next(iter(h.blocks))]
+            key = rb(rng, rng.choice([8, 16, 24]))
+            want = header_tuple(h)
+            w = call_impl(kbo.wrap, (key,), stream="tr31")
+            if not w.ok:
+                c.fail(f"wrap through the KeyBlock raised {w.err}")
+            else:
+                u = unwrap_case(c, kbpk, w.value)
+                if not u.ok or u.value[1] != key:
+                    c.fail("round trip through a KeyBlock whose header was edited after construction fails")
+                elif header_tuple(u.value[0]) != want:
+                    c.fail(f"the key block does not carry the header as the caller left it: {header_tuple(u.value[0])} instead of {want}")
+            yield c
     # keys whose bytes happen to parse as something (a DER structure with or without trailing zeros, PEM text, base64, hex text,
     # JSON), under every algorithm letter that might make an implementation look inside: the key is returned byte for byte
     import base64
